@@ -5,6 +5,7 @@ package check
 
 import (
 	"context"
+	"sync/atomic"
 
 	"github.com/pkg/errors"
 
@@ -154,7 +155,8 @@ func (e *Engine) checkInverted(
 		Trace("invert check")
 
 	var check checkgroup.CheckFunc
-	ctx = graph.ResetVisited(ctx)
+	cutOff := new(atomic.Bool)
+	ctx = checkgroup.WithCutOffFlag(graph.ResetVisited(ctx), cutOff)
 
 	switch c := inverted.Child.(type) {
 
@@ -188,7 +190,7 @@ func (e *Engine) checkInverted(
 
 	return func(ctx context.Context, resultCh chan<- checkgroup.Result) {
 		innerCh := make(chan checkgroup.Result, 1)
-		go check(graph.ResetVisited(ctx), innerCh)
+		go check(checkgroup.WithCutOffFlag(graph.ResetVisited(ctx), cutOff), innerCh)
 		select {
 		case result := <-innerCh:
 			// never turn a failed check into a decision
@@ -201,7 +203,14 @@ func (e *Engine) checkInverted(
 			case checkgroup.IsMember:
 				result.Membership = checkgroup.NotMember
 			case checkgroup.NotMember:
-				result.Membership = checkgroup.IsMember
+				if cutOff.Load() {
+					// The negated check did not run to completion, so "not a
+					// member" is not established. Tell the enclosing negation.
+					checkgroup.MarkCutOff(ctx)
+					result.Membership = checkgroup.MembershipUnknown
+				} else {
+					result.Membership = checkgroup.IsMember
+				}
 			}
 			resultCh <- result
 		case <-ctx.Done():
